@@ -129,6 +129,15 @@ def run_gen_phase(ctx):
     for perm in itertools.permutations(trio):
         fixed.append({"config": adef.mk_config(register_address_type="u16", default_byte_order="LE"), "objects": [
             adef.mk_register("Ra", 0, 16, [adef.mk_field(n, "uint", a, b) for n, a, b in perm])]})
+    # a bool written as a bare bit index is ONE bit wide wherever it is looked at: on the first bit of another field, on
+    # the bit of another bool, in either declaration order (seed C02-9 compared it as the empty range it is before the bool
+    # pass widens it)
+    mkb = lambda n, bit: adef.mk_field(n, "bool", bit, None)
+    for fl in ([mkb("ready", 4), adef.mk_field("mode", "uint", 4, 8)], [adef.mk_field("mode", "uint", 4, 8), mkb("ready", 4)],
+               [mkb("aa", 3), mkb("bb", 3)], [adef.mk_field("lo", "uint", 0, 4), mkb("mid", 7), adef.mk_field("hi", "uint", 7, 8)],
+               [mkb("top", 7), adef.mk_field("all", "uint", 0, 8)]):
+        fixed.append({"config": adef.mk_config(register_address_type="u16", default_byte_order="LE"), "objects": [
+            adef.mk_register("Ra", 0, 8, fl)]})
     quad = [("code", 12, 24), ("ready", 0, 1), ("fault", 1, 2), ("busy", 13, 14)]
     for perm in list(itertools.permutations(quad))[ctx.seed % 3::3]:
         fixed.append({"config": adef.mk_config(register_address_type="u16", default_byte_order="BE"), "objects": [
